@@ -261,7 +261,7 @@ func runC18(r *core.Run) {
 				if !enum.Strings(f.Alphabet, L, func(s string) bool { return emit(c18Input{Format: f.Name, Input: core.S(s)}) }) {
 					return
 				}
-				for _, size := range []string{"small", "medium", "vocab"} {
+				for _, size := range []string{"small", "medium", "vocab", "ext"} {
 					for i := range corpus(f.Name, size) {
 						emit(c18Input{Format: f.Name, Corpus: fmt.Sprint(size, "/", i)})
 					}
